@@ -33,12 +33,10 @@ GROUPS = [
     chk("inftest", ["C02"], 1, 1, "quick", 900, vmax=1),
     chk("opttest", ["C01"], 1, 1, "thorough", 1500),
     chk("inftest", ["C02"], 1, 1, "thorough", 1500),
-    chk("opttest", ["C01"], 1, 2, "thorough", 1500),
-    chk("inftest", ["C02"], 1, 2, "thorough", 1500),
-    chk("opttest", ["C01"], 2, 1, "thorough", 1500),
-    chk("inftest", ["C02"], 2, 1, "thorough", 1500),
-    chk("opttest", ["C01"], 2, 2, "thorough", 3000),
-    chk("inftest", ["C02"], 2, 2, "thorough", 3000),
+    chk("inftest", ["C02"], 1, 2, "thorough", 2400),
+    chk("opttest", ["C01"], 1, 2, "thorough", 2400, vmax=1),
+    chk("opttest", ["C01"], 2, 1, "thorough", 2400, vmax=1),
+    chk("inftest", ["C02"], 2, 1, "thorough", 2400, vmax=1),
     Group("exact/gating", "exact_gating.c", tus=["exact.c"], model=MODEL, dfcc=False, std_checks=False, slice=True,
           remove_bodies=["QSexact_optimal_test", "QSexact_infeasible_test", "optimal_output", "infeasible_output",
                          "QScopy_prob_mpq_dbl", "QScopy_prob_mpq_mpf"],
@@ -50,4 +48,12 @@ GROUPS = [
     Group("exact/output", "exact_gating.c", tus=["exact.c"], model=MODEL, defines=["FN_output_copy"], dfcc=False, export_static=True, unwind=4, kind="bounded",
           bound="vector length 2 (size-header arrays need a compile-time length); loops completely unwound", functions=["optimal_output", "infeasible_output"], props=["C01", "C02", "C17"],
           assumed=["exact/output: static functions called through goto-cc --export-file-local-symbols"]),
+]
+
+GROUPS += [
+    Group("exact/verdict_" + fn, "exact_verdict.c", tus=["exact.c", "allocrus.c"], model=MODEL, defines=["FN_" + fn, "QSV_GMP_TOKENS"], dfcc=False, unwind=3, std_checks=True, leak=False, timeout=900,
+          must_fail=["reach_end", cov], functions=["QSexact_basis_" + fn], props=["C12", "C05", "C18", "C17"],
+          note="loop-free plumbing; every callee is an arbitrary-result ghost-recording stub",
+          assumed=["exact/verdict: callees (QSload_basis, build_internal_lpinfo, ILLbasis_load/factor, ILLfct_compute_*, ILLfct_check_*, ILLfct_set_status_values) are nondeterministic stubs recording call order and arguments; their own contracts are decided in fct/*, basis/load, qsb/*"])
+    for fn, cov in [("optimalstatus", "reach_optimal"), ("dualstatus", "reach_dual_infeasible")]
 ]
